@@ -853,6 +853,67 @@ def gen_views(repo):
            'From Coq Require Import ZArith Bool.\n\n')
     return G, hdr + '\n'.join(G.defs)
 
+# ----------------------------------------------------------------------------------------------------
+# memory access skeletons: every a[..] / b[..] / c[..] / out[..] index expression of a kernel, in source order
+def accesses_of(body, arrays, arith, env, atoms):
+    out = []
+    for m in re.finditer(r'(?<![\w.])(%s)\s*\[' % '|'.join(arrays), body):
+        j = match_close(body, m.end() - 1, '[', ']')
+        pre = body[max(0, m.start() - 40):m.start()]
+        if re.search(r'(?:^|[;{}(,\s])(?:FASTOR_ARCH_ALIGN\s+)?(?:const\s+)?(?:T|V|int|size_t)\s+$', pre): continue      # a declaration T name[size]
+        t, so = translate(body[m.end():j], arith, env, atoms)
+        out.append((arrays.index(m.group(1)), t))
+    return out
+
+def gen_access(repo):
+    G = Gen(repo)
+    NAT = 'nat'
+    vat = [(r'V::Size', 'W', 'n')]
+    def ids(names): return {n: (n, 'n') for n in names}
+    def acc(rel, header, nth, arrays, env, defined=frozenset(), pre_defined=None, consts=False, skip_from=None):
+        def fn():
+            txt = G.src(rel)
+            if pre_defined is not None: txt = preprocess(txt, pre_defined)
+            body, _ = find_scope(txt, header, nth)
+            body = preprocess(body, set(defined))
+            e = dict(env); lets = []
+            if consts:
+                lets, e = let_chain(decls_of(body, True), NAT, e, vat, None)
+            items = accesses_of(body, arrays, NAT, e, vat)
+            return NL.join(lets + ['[' + '; '.join('(%d, %s)' % it for it in items) + ']'])
+        return fn
+    TR = 'backend/transpose/transpose.h'; MK = 'backend/matmul/matmul_kernels.h'; TM = 'backend/matmul/tmatmul.h'
+    thdr = r'FASTOR_INLINE\s+void\s+_transpose\s*\(const\s+T\s*\*\s*FASTOR_RESTRICT\s+a\s*,\s*T\s*\*\s*FASTOR_RESTRICT\s+out\)\s*\{'
+    G.define('gen_transpose_avx_accesses', '(W M N i ii j jj v : nat)', 'list (nat * nat)',
+             acc(TR, thdr, 0, ['a', 'out', 'pack_a', 'pack_out'], ids(['M', 'N', 'i', 'ii', 'j', 'jj', 'v']), pre_defined={'FASTOR_AVX_IMPL'}, consts=True),
+             TR + ': blocked _transpose (FASTOR_AVX_IMPL, default block sizes): index of every a / out / pack_a / pack_out access, source order (0 a, 1 out, 2 pack_a, 3 pack_out)')
+    G.define('gen_transpose_plain_accesses', '(M N i j : nat)', 'list (nat * nat)',
+             acc(TR, thdr, 0, ['a', 'out'], ids(['M', 'N', 'i', 'j']), pre_defined=set()),
+             TR + ': plain _transpose (no AVX): out[..] = a[..]')
+    envk = ids(['M', 'K', 'N', 'i', 'j', 'ii', 'k', 'n', 'unrollOuterloop', 'numSIMDRows', 'numSIMDCols'])
+    envk['unrollOuterloop'] = ('R', 'n')
+    khdr = r'void\s+interior_block_matmul_impl\s*\([^)]*\)\s*\{'
+    for c in range(5):
+        G.define('gen_mmkernel%d_accesses' % (c + 1), '(W M K N R i j ii k n : nat)', 'list (nat * nat)', acc(MK, khdr, c, ['a', 'b', 'c'], envk),
+                 MK + ': interior_block_matmul_impl<numSIMDCols=%d>: index of every a / b / c access, source order (0 a, 1 b, 2 c)' % (c + 1))
+    G.define('gen_mmkernel_scalar_accesses', '(W M K N R i j ii k n : nat)', 'list (nat * nat)', acc(MK, r'void\s+interior_block_matmul_scalar_impl\s*\([^)]*\)\s*\{', 0, ['a', 'b', 'c'], envk),
+             MK + ': interior_block_matmul_scalar_impl: a / b / c accesses')
+    for c in range(2):
+        G.define('gen_mmkernel_mask%d_accesses' % c, '(W M K N R i j ii k n : nat)', 'list (nat * nat)', acc(MK, r'void\s+interior_block_matmul_mask_impl\s*\(', c, ['a', 'b', 'c'], envk),
+                 MK + ': interior_block_matmul_mask_impl (%s): a / b / c accesses' % ('int mask array' if c == 0 else 'AVX-512 mask register'))
+    envd = ids(['M', 'K', 'N', 'i', 'j', 'k', 'n'])
+    envd.update({'FASTOR_MATMUL_OUTER_BLOCK_SIZE': ('ob', 'n'), 'FASTOR_MATMUL_INNER_BLOCK_SIZE': ('ib', 'n')})
+    G.define('gen_mmbase_inline_accesses', '(W M K N i j k n : nat)', 'list (nat * nat)',
+             acc(MK, r'void\s+_matmul_base\s*\(const[^)]*\)\s*\{', 0, ['a', 'b', 'c'], envd, consts=True),
+             MK + ': _matmul_base: a / b / c accesses of the code written inline in the driver (single-vector, scalar and leftover-row parts)')
+    G.define('gen_mmbase_masked_inline_accesses', '(W M K N i j k n : nat)', 'list (nat * nat)',
+             acc(MK, r'void\s+_matmul_base_masked\s*\(const[^)]*\)\s*\{', 0, ['a', 'b', 'c'], envd, consts=True),
+             MK + ': _matmul_base_masked: a / b / c accesses of the inline code')
+    hdr = ('(** GENERATED by lib/cxx2v.py from the C++ source of /repo on every run -- do not edit.\n'
+           '    Index expression of every operand / result access of the transpose and matmul kernels. *)\n'
+           'From Coq Require Import Arith List Bool.\nImport ListNotations.\n\n')
+    return G, hdr + '\n'.join(G.defs)
+
 def write_generated(repo, coqdir):
     """regenerate coq/Gen/Generated.v from the source (written only when its text changes, so that make
     re-checks the proofs exactly when the translation changed); returns the list of failed translations"""
@@ -869,8 +930,12 @@ def write_generated(repo, coqdir):
     p3 = os.path.join(coqdir, 'Gen', 'GeneratedViews.v')
     if not os.path.exists(p3) or open(p3).read() != txt3:
         open(p3, 'w').write(txt3)
-    return (G.failed + G2.failed + G3.failed,
-            len(G.defs) - len(G.failed) + len(G2.defs) - len(G2.failed) + len(G3.defs) - len(G3.failed))
+    G4, txt4 = gen_access(repo)
+    p4 = os.path.join(coqdir, 'Gen', 'GeneratedAccess.v')
+    if not os.path.exists(p4) or open(p4).read() != txt4:
+        open(p4, 'w').write(txt4)
+    return (G.failed + G2.failed + G3.failed + G4.failed,
+            sum(len(g.defs) - len(g.failed) for g in (G, G2, G3, G4)))
 
 if __name__ == '__main__':
     repo = sys.argv[1] if len(sys.argv) > 1 else os.environ.get('FASTOR_REPO', '/repo')
